@@ -8,12 +8,13 @@ SPEC = dict(
               "C10_invalid_reverts", "C10_fastpath_encode_partial", "C10_decoder_validates", "C10_prop_of_model",
               "C10_trivialEnum_counterexample", "C10_trivialEnum_decode_counterexample"],
     gen=[codec_trivial.gen, mem_repr.gen],
-    steps=[dict(bin="sv_c09", label="sv_c10", area="c10", n_quick=700, n_thorough=7000, corpus="corpus/c10.txt",
+    steps=[dict(bin="sv_c09", label="sv_c10", area="c10", n_quick=1500, n_thorough=8000, corpus="corpus/c10.txt",
                 args=["--mode", "c10", "--per-pkg", "240"], timeout=3000,
                 dist_keys=("kind", "class", "depth", "size", "implTrivE", "implTrivD", "implMemEq", "padded", "valid", "trivD"),
                 nontrivial=lambda case, impl, kv: kv.get("implTrivE") == "1" or kv.get("kind", "").startswith("dec-bad")
                 or kv.get("padded") == "1")],
-    rule="type trees biased to word-aligned layouts (so that about half are classified trivial) and to nearly aligned "
+    rule="FIRST, on every run, a systematic enumeration of ~420 small type shapes (leaves: sub-word / word / multi-word ints, unit, [u8;N] N in {1,3,7,8,9,12,16,33}, [bool;5], str[N]; every depth-1 aggregate kind over them: structs/tuples with 1-3 fields (each leaf first/middle/last), enums with 1-3 variants (all-equal payloads, a unit variant on either side, mixed sizes), arrays of 0-3, Vec, Option; a depth-2 layer wrapping every third shape in a 1-field struct / struct with a u8 neighbour / array of 2 / Vec / enum variant), one value + canonical decode each; THEN "
+         "type trees biased to word-aligned layouts (so that about half are classified trivial) and to nearly aligned "
          "ones (one u8/bool/u16/u32/str[N]/unit spoiler, zero-sized variants, all-unit enums), 2 values per type; Sway "
          "#[test]s on the real FuelVM log is_encode_trivial::<T>(), is_decode_trivial::<T>(), the mem-id test, the raw "
          "memory image (__addr_of + __size_of bytes), log(v); abi_decode::<T> of canonical bytes and of bytes with one "
